@@ -7,3 +7,4 @@ git -C /repo worktree add -q --detach "$d" HEAD
 rsync -a --exclude .git --exclude '*.o' --exclude '*.lo' --exclude '.libs' --exclude '*.la' --exclude xcmtest --ignore-existing /repo/ "$d"/
 sed -i "s#/repo#$d#g" "$d"/Makefile
 echo "$d"
+(cd "$d" && make -j4 >/dev/null 2>&1 && make -j4 xcmtest >/dev/null 2>&1) || echo "warning: build in $d failed" >&2
